@@ -9,6 +9,7 @@ A forwarding comparator (calls another comparator on rebuilt pairs) is accepted 
 from vfacts import strip, walk, method_name
 
 RULE = 'ORDTOTAL'
+WITNESS = 'src/ordtotal.cc'
 FLOOR = 2
 
 
@@ -63,3 +64,41 @@ def run(unit, em):
             if not ident_cmp:
                 missing.append('the identity of the macro-state handle (.second as a pointer)')
             em.violation(fn, name, 'the ordering never compares %s: two distinct pairs that agree on the compared keys are equivalent and the second one is silently dropped from the worklist' % ' and '.join(missing))
+
+
+# ---- clause `lex`: a two-key ordering guards its second key by equality of the first
+def run_lex(unit, em):
+    from vfacts import is_node
+    for fn in unit.functions:
+        if fn.body is None or len(fn.params) != 2:
+            continue
+        nm = fn.q.rsplit('::', 1)[-1]
+        if nm not in ('operator()', 'operator<') or unit.tname(fn.d.get('ret')) != 'bool':
+            continue
+        if unit.ty(fn.params[0]).replace('const ', '') != unit.ty(fn.params[1]).replace('const ', ''):
+            continue
+        if not ('/src/' in fn.file or '/include/' in fn.file):
+            continue
+        for r in fn.walk(lambdas=False):
+            if r['k'] != 'ReturnStmt' or not (r.get('ch') or [None])[0]:
+                continue
+            e = strip(r['ch'][0])
+            if e is None or e['k'] != 'BinaryOperator' or e.get('op') != '||':
+                continue
+            a, b = strip(e['ch'][0]), strip(e['ch'][1])
+
+            def is_less(x):
+                return x is not None and x['k'] in ('BinaryOperator', 'CXXOperatorCallExpr') and x.get('op') in ('<', '>')
+            txt = unit.text(e, 80)
+            if is_less(a) and is_less(b):
+                em.violation(r, txt, 'a two-key ordering written as `k1(a) < k1(b) || k2(a) < k2(b)`: the second key is compared although the first keys differ, so for some a, b both a < b and b < a hold — not a strict weak order; a std::set / sort using it loses or duplicates elements', 'lex')
+            elif is_less(a) and b is not None and b['k'] == 'BinaryOperator' and b.get('op') == '&&':
+                em.ok(r, txt, 'second key guarded', 'lex')
+
+
+_run_ord = run
+
+
+def run(unit, em):
+    _run_ord(unit, em)
+    run_lex(unit, em)
